@@ -32,7 +32,7 @@ CHECKS = {
              "oracle: riffwalk validates; blobs byte-exact in the file, via Demuxer.GetChunk and via animation.DecodeBytes; flags <=> chunks; image/ALPH chunk bytes and decoded pixels/playback identical with and without metadata; thorough adds the 100 MB cap (+1 rejected, exactly 100 MB accepted and read back). "
              "Non-trivial: >=1 non-empty blob; distinct = (kind, subset+parities, codec, alpha, frame count).",
         assumptions=["an empty (zero-length) blob may be stored as an empty chunk or omitted; both accepted"],
-        tests=[dict(name="TestC15", quick=3200, thorough=48000), dict(name="TestC15Limit", quick=1, thorough=1, shards=1, thorough_only=True, no_replay=True)],
+        tests=[dict(name="TestC15", quick=2400, thorough=48000), dict(name="TestC15Limit", quick=1, thorough=1, shards=1, thorough_only=True, no_replay=True)],
     ),
     "C19": dict(
         level="exploration",
@@ -40,7 +40,7 @@ CHECKS = {
              "oracle (metamorphic): all presentations give byte-identical files from a pool-flushed state; changing only out-of-bounds bytes changes nothing; SHA-256 of the caller's whole backing buffer unchanged. "
              "Non-trivial: >=2 colours and >=3 presentations; distinct = (codec, alpha, Exact, sharp, preprocessing, Method, presentation list).",
         assumptions=["sync.Pool state is normalised (runtime.GC x2) before each compared encode; history dependence is C11's subject"],
-        tests=[dict(name="TestC19", quick=3200, thorough=60000)],
+        tests=[dict(name="TestC19", quick=1600, thorough=60000)],
     ),
     "C20": dict(
         level="exploration",
@@ -48,7 +48,7 @@ CHECKS = {
              "oracle: never panics; documented-invalid => error and nothing written; documented-valid => success + C02 structural validator + decodes; sentinel == documented default byte for byte; lossy-only options do not change lossless bytes; nil options == DefaultOptions(). "
              "Non-trivial: every case (each sits on a boundary or relation); distinct = (mode, field, boundary kind).",
         assumptions=["documented ranges = EncoderOptions field comments; Segments/Pass 0 count as 'use default' as validateConfig documents"],
-        tests=[dict(name="TestC20", quick=6400, thorough=200000)],
+        tests=[dict(name="TestC20", quick=6400, thorough=80000)],
     ),
     "C04": dict(
         level="exploration",
@@ -57,7 +57,7 @@ CHECKS = {
              "Oracle: Y/U/V planes (or RGBA with alpha) bit-exact vs libwebp AND x/image (both must accept and agree, else the case is inconclusive); RGBA confirmed by a reference fancy upsampler. "
              "Non-trivial: truth established by two agreeing witnesses; distinct = header-feature signature.",
         assumptions=["libwebp 1.2.4 and golang.org/x/image/vp8 agreeing with each other define the format's samples", "streams all witnesses reject or disagree on are excluded and counted (inconclusive)"],
-        tests=[dict(name="TestC04", quick=6400, thorough=160000)],
+        tests=[dict(name="TestC04", quick=6400, thorough=640000)],
     ),
     "C06": dict(
         level="exploration",
@@ -71,9 +71,9 @@ CHECKS = {
         level="exploration",
         rule="inputs: 1-4 rapid-drawn mutations (bit flips, hostile byte values, chunk size-field rewrites incl. 0/1/odd/len+-k/0x7fffffff/0xffffffff, dimension rewrites, chunk delete/duplicate/move, FourCC swaps, truncation, random tails, inserts, 0x00/0xff runs, splices across seeds) of ~25 small valid files (package encoder: lossy 1/4/8 partitions, lossy+alpha raw/compressed/quantised, lossless, metadata; animation encoder lossless/lossy/mixed; muxer; /verif's VP8 generator; libwebp-written; repo testdata), random bytes behind a valid magic, and container programs with lying size fields. "
              "Every input goes through Decode, DecodeConfig, GetFeatures, image.Decode/DecodeConfig, animation.DecodeBytes+DecodeFrames+DecodeFramesParallel+AnimDecoder playback, mux.NewDemuxer+Frame(i)+GetChunk+iterator. "
-             "Oracle: no panic, returns within 20 s (expiry confirmed by a 60 s re-run before it counts), well-formed results (positive bounds, buffers large enough), bytes allocated <= 64 MiB + 64 x (input length + 4 x declared pixels). "
+             "Oracle: no panic, returns within a watchdog limit of 30 s + 1 ms per 20,000 declared pixels (an expiry must reproduce with six times that limit before it counts), well-formed results (positive bounds, buffers large enough), bytes allocated <= 64 MiB + 64 x (input length + 4 x declared pixels). "
              "Non-trivial: input still carries the RIFF/WEBP magic; distinct = (source, seed, mutation kinds, which entry points accepted). Thorough adds a native coverage-guided fuzz campaign over the same entry points.",
-        assumptions=["inputs declaring more than 2^24 pixels are run through the header-only entry points (counted as skipped_huge_declared)",
+        assumptions=["inputs declaring more than 2^22 pixels are run through the header-only entry points (counted as skipped_huge_declared)",
                      "allocation measured with runtime.MemStats.TotalAlloc in a single-goroutine test process"],
         tests=[dict(name="TestC05", quick=40000, thorough=1500000, env=dict(VERIF_WANT_LASTCASE="1"))],
         fuzz=[dict(name="FuzzC05", seconds=240)],
@@ -118,7 +118,7 @@ CHECKS = {
              "Oracle: a model of the muxer state predicts acceptance and structure. Accepted: riffwalk validates the file; mux.Demuxer AND container.Parser return the same bitstreams and ALPH payloads byte for byte, offsets rounded down to even, clamped durations, blend/dispose, loop count, background colour, canvas, metadata; GetFeatures agrees; stills decode to the same pixels as their bitstream alone. Rejected: an error, and nothing that parses as a complete file was written; consistent states must not be rejected, frames outside the canvas must be. "
              "Non-trivial: alpha-prefixed frame, >=2 frames or metadata; distinct = (animated, frame count, setters used, payload parities, fits).",
         assumptions=["offsets non-negative; canvas area kept below the package's 2^30-pixel reader cap; for stills with an explicit canvas different from the picture the strict still-canvas rule of riffwalk is not applied"],
-        tests=[dict(name="TestC14", quick=6400, thorough=150000)],
+        tests=[dict(name="TestC14", quick=6400, thorough=600000)],
     ),
     "C16": dict(
         level="exploration",
@@ -126,7 +126,7 @@ CHECKS = {
              "Oracle: GetFeatures, DecodeConfig, mux.Demuxer and animation.DecodeBytes all accept and agree on canvas size, animation flag, frame count and (animated) loop count; for stills Decode accepts: header width/height == decoded bounds, DecodeConfig.ColorModel == decoded image's ColorModel(), format name matches the first chunk, package-written files set the alpha flag whenever a decoded pixel is not opaque, image.Decode/image.DecodeConfig report \"webp\" and the same results. "
              "Non-trivial: every file; distinct = (source, format, animated, chunk layout with empty/odd markers).",
         assumptions=["the harness binary links no other decoder registering the webp format (x/image/webp is vendored without its init)"],
-        tests=[dict(name="TestC16", quick=6400, thorough=150000)],
+        tests=[dict(name="TestC16", quick=6400, thorough=400000)],
     ),
     "C12": dict(
         level="exploration",
@@ -142,7 +142,7 @@ CHECKS = {
              "The history runs with the GC disabled (pooled objects survive); every previously returned value and caller-owned input is re-hashed after every later call. Oracle: each call's result equals the result of the same call from a flushed-pool (fresh) state. "
              "Non-trivial: the verif-tagged Pool hook saw at least one pool hit during the history; distinct = sequence of (previous op -> op) pairs.",
         assumptions=["runtime.GC() twice empties every sync.Pool, standing for a fresh process", "results are compared through digests (bytes; image type+bounds+samples; error text)"],
-        tests=[dict(name="TestC11", quick=1200, thorough=25000)],
+        tests=[dict(name="TestC11", quick=800, thorough=25000)],
     ),
     "C10": dict(
         level="exploration",
@@ -151,7 +151,7 @@ CHECKS = {
              "Both parts also run under the Go race detector (any DATA RACE report is a violation). "
              "Non-trivial: >=4 rows claimed by the pipeline, or >=2 goroutines with at least one pool hit; distinct = (plan kinds, worker count, Method) / (goroutines, procs, op mix, calls).",
         assumptions=["the Go scheduler is perturbed at the hooked points and by GOMAXPROCS/load, not enumerated: an interleaving inside an unhooked critical region can be missed", "race detector findings depend on the schedules that actually occur"],
-        tests=[dict(name="TestC10Sched", quick=480, thorough=16000), dict(name="TestC10Conc", quick=96, thorough=4000),
+        tests=[dict(name="TestC10Sched", quick=320, thorough=16000), dict(name="TestC10Conc", quick=64, thorough=4000),
                dict(name="TestC10Sched", quick=32, thorough=1200, variant="race"), dict(name="TestC10Conc", quick=16, thorough=640, variant="race")],
     ),
     "C13": dict(
